@@ -3,7 +3,7 @@ MIR_NOTE = ('Bounded symbolic execution, not a proof. Trusted: rustc nightly MIR
             'the OpenMLS/storage environment contracts listed in the evidence, z3. Callee results are nondeterministic; loops and symbolic lists are '
             'unrolled to the stated bounds with an unwinding check (a path hitting the bound makes the check BROKEN, not passing).')
 ENGINES = [
-    dict(name='mirsym', path='/verif/mirsym', serves_properties=['C05'],
+    dict(name='mirsym', path='/verif/mirsym', serves_properties=['C02', 'C04', 'C05'],
          kind_free_text='E3/E3c: symbolic execution (z3) of the textual MIR of the repository crates, regenerated from the working tree on every run'),
     dict(name='kani-direct', path='/verif/kani/direct', serves_properties=['C18'],
          kind_free_text='E1: Kani 0.68 / CBMC 6.11 harnesses (kani::any inputs, unwind bounds, cover! vacuity witnesses) over the compiled real code'),
@@ -12,6 +12,18 @@ NOTES = ('Solver-based checking of the real code: CBMC via Kani over compiled Ru
          "repository's MIR and SQL. Every claim is bounded; see DESIGN.md. Exit 2 = broken/inconclusive machinery, never a VIOLATION.")
 PENDING = 'check not built yet in this revision of /verif (work in progress; see DESIGN.md section 5 for the planned obligations)'
 CHECKS = [
+    dict(id='C02', engine='mirsym', design_ref='DESIGN.md section 5, C02',
+         technique='symbolic execution of the compiler MIR with z3: bit-vector window arithmetic, path enumeration with per-path assertions',
+         text='For all 64-bit epochs and look-back values up to the bound, z3 shows the past-epoch decryption loop tries exactly cur-1..max(0,cur-lookback) in order; '
+              'every path of process_application_message stores the decoded rumor fields unchanged; the own-echo state machine is total over all six record states '
+              'with exactly the documented writes.',
+         note=MIR_NOTE + ' Not covered: OpenMLS ratchet/out-of-order windows, NIP-44, end-to-end delivery under reordering (needs real OpenMLS state).'),
+    dict(id='C04', engine='mirsym', design_ref='DESIGN.md section 5, C04',
+         technique='symbolic execution of the compiler MIR with z3 + uninterpreted NIP-01 hash; counterexamples replayed by native tests on real OpenMLS groups',
+         text='Every path of verify_rumor_author is checked against the truth table (Basic credential, 32-byte identity, equal to the rumor pubkey); on every storing path of '
+              'process_application_message and create_message z3 shows Message.id == NIP-01 hash of the stored fields (pre-set rumor ids are symbolic).',
+         note=MIR_NOTE + ' nostr UnsignedEvent::id/ensure_id/verify_id are contract models read from the nostr 0.44 sources. Not covered: OpenMLS replay protection, '
+              'cross-group isolation inside the storage backends (see C09/C10).'),
     dict(id='C05', engine='mirsym', design_ref='DESIGN.md section 5, C05',
          technique='symbolic execution of the compiler MIR with z3 (path enumeration + per-path assertions), uninterpreted environment calls',
          text='Every feasible path of validate_commit_authorization, is_pure_self_update_commit (proposal lists up to 3/4, all proposal kinds and senders symbolic), '
@@ -31,4 +43,4 @@ NOT_APPLICABLE = [
     dict(property_id='C14', reason='needs core::fmt executed on every path or a taint analysis; formatting is what this family stubs out'),
     dict(property_id='C19', reason='thread interleavings: Kani sequentialises atomics and rejects thread::spawn; parking_lot crashes the Kani compiler; no concurrency engine in this family here'),
 ] + [dict(property_id=p, reason=PENDING) for p in
-     ['C01', 'C02', 'C04', 'C06', 'C07', 'C08', 'C09', 'C10', 'C11', 'C12', 'C15', 'C16', 'C17', 'C20']]
+     ['C01', 'C06', 'C07', 'C08', 'C09', 'C10', 'C11', 'C12', 'C15', 'C16', 'C17', 'C20']]
